@@ -3,7 +3,12 @@
    assign, apply, and the lifting of the single-write laws to any sequence of writes.
    Pure storage facts: no law on the arithmetic [A] is used. *)
 From Coq Require Import List Arith Lia Bool.
-From OV Require Import Base.Panic Base.Arith Model.Vector Model.Matrix Model.Mesh Proofs.MeshBase.
+From OV Require Import Base.Panic.
+From OV Require Import Base.Arith.
+From OV Require Import Model.Vector.
+From OV Require Import Model.Matrix.
+From OV Require Import Model.Mesh.
+From OV Require Import Proofs.MeshBase.
 Import ListNotations.
 
 (* ------------------------------------------------------------------ flat indices *)
